@@ -34,18 +34,21 @@ Proof.
   apply Forall_app. split; [apply Hf, Hx | apply IH, Hf].
 Qed.
 
-Lemma settle_nd_good v a lazy fuel : forall skip p, good v p -> Forall (good v) (settle_nd v a lazy fuel skip p).
+Lemma settle_nd_good v a lazy target fuel : forall skip p, good v p -> Forall (good v) (settle_nd v a lazy target fuel skip p).
 Proof.
   induction fuel as [|f IH]; intros skip [s tr] G; cbn [settle_nd]; [constructor|].
   destruct (first_enabled v s (internal_events_skip a skip s)) as [[e s']|] eqn:E.
   - pose proof (first_enabled_step _ _ _ _ _ E) as S.
-    apply Forall_app. split; [apply IH; eapply good_snoc; eauto|].
-    destruct e; try constructor.
-    + (* WireWrite *) destruct (lazy || write_open v s c); [apply IH, G | constructor].
-    + (* SendFail *) destruct (lazy || write_open v s c); [apply IH, G | constructor].
-    + (* WakeResp *) destruct (racing s c); [|constructor].
+    assert (T : Forall (good v) (settle_nd v a lazy target f skip (s', tr ++ [e]))) by (apply IH; eapply good_snoc; eauto).
+    assert (L : forall c, Forall (good v) (if lazy || write_open v s c then settle_nd v a lazy target f (c :: skip) (s, tr) else []))
+      by (intros c; destruct (lazy || write_open v s c); [apply IH, G | constructor]).
+    destruct e; try (apply Forall_app; split; [exact T | constructor]).
+    + (* WireWrite *)
+      destruct (nth_error target (List.length (wire s))) as [id|]; [destruct (id =? Z.of_nat c)%Z|]; auto.
+    + (* SendFail *) apply Forall_app; split; [exact T | apply L].
+    + (* WakeResp *) apply Forall_app; split; [exact T|]. destruct (racing s c); [|constructor].
       eapply Forall_flat_map; [apply alt_step_good, G | intros x Hx; apply IH, Hx].
-    + (* AppRecv *) destruct (done s); [|constructor].
+    + (* AppRecv *) apply Forall_app; split; [exact T|]. destruct (done s); [|constructor].
       eapply Forall_flat_map; [apply alt_step_good, G | intros x Hx; apply IH, Hx].
   - constructor; [exact G | constructor].
 Qed.
@@ -63,7 +66,7 @@ Proof.
   apply K. constructor.
 Qed.
 
-Lemma run_group_nd_good v a evs : forall p, good v p -> Forall (good v) (run_group_nd v a evs p).
+Lemma run_group_nd_good v a target evs : forall p, good v p -> Forall (good v) (run_group_nd v a target evs p).
 Proof.
   induction evs as [|e r IH]; intros [s tr] G; cbn [run_group_nd fst snd].
   - apply settle_nd_good, G.
@@ -87,7 +90,7 @@ Theorem sched_nd_sound v a gs snaps final s tr :
   run v init tr = Some s /\ beq_obs (observe s) final = true.
 Proof.
   unfold sched_nd. intros H. apply find_some in H. destruct H as [In Ob]. split; [|exact Ob].
-  assert (G : Forall (good v) (run_sched_nd v a gs snaps (settle_nd v a false settle_fuel [] (init, [])))).
+  assert (G : Forall (good v) (run_sched_nd v a gs snaps (settle_nd v a false [] settle_fuel [] (init, [])))).
   { apply run_sched_nd_good, settle_nd_good. reflexivity. }
   rewrite Forall_forall in G. exact (G _ In).
 Qed.
